@@ -16,15 +16,15 @@ package template
 //@   ensures same: sameview(r, t.src)
 
 //@ func asciiAlpha(c byte) (r bool)
-//@   serves C01 C08
+//@   serves C01 C02 C04 C08
 //@   ensures spec: r == alpha(c)
 
 //@ func asciiAlphaNum(c byte) (r bool)
-//@   serves C01 C08
+//@   serves C01 C02 C04 C08
 //@   ensures spec: r == alnum(c)
 
 //@ func eatWhiteSpace(s []byte, i int) (r int)
-//@   serves C01 C08
+//@   serves C01 C02 C04 C08
 //@   requires 0 <= i && i <= len(s)
 //@   ensures range: i <= r && r <= len(s)
 //@   ensures skipped: forall(k, i, r, htmlws(s[k]))
@@ -37,7 +37,7 @@ package template
 //@     decreases len(s) - j
 
 //@ func eatAttrName(s []byte, i int) (r int, err *Error)
-//@   serves C01 C08
+//@   serves C01 C02 C04 C08
 //@   requires 0 <= i && i <= len(s)
 //@   ensures ok: isnil(err) ==> i <= r && r <= len(s) && forall(k, i, r, !attrnameend(s[k]) && !attrnamebad(s[k])) && (r < len(s) ==> attrnameend(s[r]))
 //@   ensures bad: !isnil(err) ==> r == -1 && exists(p, i, len(s), attrnamebad(s[p]) && forall(k, i, p, !attrnameend(s[k]) && !attrnamebad(s[k])))
@@ -50,7 +50,7 @@ package template
 //@     decreases len(s) - j
 
 //@ func eatTagName(s []byte, i int) (r int, e element)
-//@   serves C01 C08
+//@   serves C01 C02 C04 C08
 //@   requires 0 <= i && i <= len(s)
 //@   ensures none: (i == len(s) || !alpha(s[i])) ==> r == i && len(e.name) == 0
 //@   ensures span: (i < len(s) && alpha(s[i])) ==> tagnameshape(s, i, r) && tagnamemax(s, r)
@@ -69,7 +69,7 @@ package template
 //@   ensures !isnil(r)
 
 //@ func tTag(c context, s []byte) (r context, n int)
-//@   serves C01 C08
+//@   serves C01 C02 C04 C08
 //@   requires c.state <= stateError && c.delim <= delimSpaceOrTagEnd
 //@   ensures progress: c.state == stateTag && len(s) > 0 ==> n > 0 || r.state != c.state
 //@   ensures wfd: c.delim == delimNone && r.delim != delimNone ==> r.state == stateAttr
@@ -89,7 +89,7 @@ package template
 //@     invariant forall(k, 0, rangeidx, isspecial(at(c.element.names, k)) && isspecial(c.element.name) ==> seqeq(at(c.element.names, k), c.element.name))
 
 //@ func tAttrName(c context, s []byte) (r context, n int)
-//@   serves C01 C08
+//@   serves C01 C02 C04 C08
 //@   requires c.state <= stateError && c.delim <= delimSpaceOrTagEnd
 //@   ensures progress: c.state == stateAttrName && len(s) > 0 ==> n > 0 || r.state != c.state
 //@   ensures wfd: c.delim == delimNone && r.delim != delimNone ==> r.state == stateAttr
@@ -101,7 +101,7 @@ package template
 //@   ensures ends: 0 <= attrstop(s, 0) && attrstop(s, 0) < len(s) ==> n == attrstop(s, 0) && r.state == stateAfterName && r.delim == c.delim && same(r.element, c.element) && same(r.attr, c.attr) && same(r.err, c.err) && same(r.scriptType, c.scriptType) && same(r.linkRel, c.linkRel)
 
 //@ func tAfterName(c context, s []byte) (r context, n int)
-//@   serves C01 C08
+//@   serves C01 C02 C04 C08
 //@   requires c.state <= stateError && c.delim <= delimSpaceOrTagEnd
 //@   ensures progress: c.state == stateAfterName && len(s) > 0 ==> n > 0 || r.state != c.state
 //@   ensures wfd: c.delim == delimNone && r.delim != delimNone ==> r.state == stateAttr
@@ -114,7 +114,7 @@ package template
 //@   ensures frame: r.delim == c.delim && same(r.element, c.element) && same(r.attr, c.attr) && same(r.err, c.err) && same(r.scriptType, c.scriptType) && same(r.linkRel, c.linkRel)
 
 //@ func tBeforeValue(c context, s []byte) (r context, n int)
-//@   serves C01 C08
+//@   serves C01 C02 C04 C08
 //@   requires c.state <= stateError && c.delim <= delimSpaceOrTagEnd
 //@   ensures progress: c.state == stateBeforeValue && len(s) > 0 ==> n > 0 || r.state != c.state
 //@   ensures wfd: c.delim == delimNone && r.delim != delimNone ==> r.state == stateAttr
@@ -128,7 +128,7 @@ package template
 //@   ensures frame: same(r.element, c.element) && same(r.attr, c.attr) && same(r.err, c.err) && same(r.scriptType, c.scriptType) && same(r.linkRel, c.linkRel)
 
 //@ func tHTMLCmt(c context, s []byte) (r context, n int)
-//@   serves C01 C08
+//@   serves C01 C02 C04 C08
 //@   requires c.state <= stateError && c.delim <= delimSpaceOrTagEnd
 //@   ensures progress: c.state == stateHTMLCmt && len(s) > 0 ==> n > 0 || r.state != c.state
 //@   ensures wfd: c.delim == delimNone && r.delim != delimNone ==> r.state == stateAttr
@@ -139,7 +139,7 @@ package template
 //@   ensures none: !exists(p, 0, len(s) - 2, matchat(s, p, "-->")) ==> same(r, c) && n == len(s)
 
 //@ func tAttr(c context, s []byte) (r context, n int)
-//@   serves C01 C08
+//@   serves C01 C02 C04 C08
 //@   requires c.state <= stateError && c.delim <= delimSpaceOrTagEnd
 //@   ensures progress: c.state == stateAttr && len(s) > 0 ==> n > 0 || r.state != c.state
 //@   ensures wfd: c.delim == delimNone && r.delim != delimNone ==> r.state == stateAttr
@@ -159,7 +159,7 @@ package template
 //@   ensures same(r, c) && n == len(s)
 
 //@ func indexTagEnd(s []byte, tag []byte) (r int)
-//@   serves C01 C08
+//@   serves C01 C02 C04 C08
 //@   requires forall(k, 0, len(tag), tag[k] < 128 && tag[k] != '<')
 //@   ensures found: r >= 0 ==> r + 2 + len(tag) < len(s) && endtagat(s, r, tag) && forall(p, 0, r, !endtagat(s, p, tag))
 //@   ensures none: r < 0 ==> r == -1 && forall(p, 0, len(s), !endtagat(s, p, tag))
@@ -170,7 +170,7 @@ package template
 //@     decreases len(s)
 
 //@ func tSpecialTagEnd(c context, s []byte) (r context, n int)
-//@   serves C01 C08
+//@   serves C01 C02 C04 C08
 //@   requires c.state <= stateError && c.delim <= delimSpaceOrTagEnd
 //@   ensures progress: c.state == stateSpecialElementBody && len(s) > 0 ==> n > 0 || r.state != c.state
 //@   ensures wfd: c.delim == delimNone && r.delim != delimNone ==> r.state == stateAttr
@@ -181,7 +181,7 @@ package template
 //@   ensures none: !(c.state == stateSpecialElementBody && isspecial(c.element.name) && exists(p, 0, len(s), endtagat(s, p, c.element.name))) ==> same(r, c) && n == len(s)
 
 //@ func tText(c context, s []byte) (r context, n int)
-//@   serves C01 C08
+//@   serves C01 C02 C04 C08
 //@   requires c.state <= stateError && c.delim <= delimSpaceOrTagEnd
 //@   ensures progress: c.state == stateText && len(s) > 0 ==> n > 0 || r.state != c.state
 //@   ensures wfd: c.delim == delimNone && r.delim != delimNone ==> r.state == stateAttr
@@ -674,6 +674,34 @@ package template
 //@ func isComment(s state) (r bool)
 //@   serves C01 C08
 //@   ensures spec: r == (s == stateHTMLCmt)
+
+// escapeTemplateBody: the function literal (the acceptance filter of the fixed-point search) is verified
+// against the closure block; the statement after it - the call of escapeListConditionally on
+// t.Tree.Root - is NOT (option stopafter 1): that an existing derived template has a tree is not
+// derivable in this model, so the ensures clauses below stay ASSUMED for the callers (results named
+// etb / etbok as functions of the start context, the assumed output context and the template; writes
+// only the escaper's maps and fresh derived trees; derived templates non-nil; pending edits keyed by
+// non-nil nodes). Listed as an assumption in the evidence of every property it serves.
+//@ func (e *escaper) escapeTemplateBody(c, out context, t *template.Template) (r context, ok bool)
+//@   serves C05 C02 C01
+//@   option embedded nameSpace.esc
+//@   option allocates
+//@   option stopafter 1
+//@   option modifies @ANALYSISMAPS @DERIVEDTREES
+//@   defines identical(r, namedlike(r, "etb", c, out, t)) && ok == namedlike(ok, "etbok", c, out, t)
+//@   step 1: true
+//@   ensures !isnil(t.Tree)
+//@   ensures WF(c) && WF(out) && old(MEMOWF(e)) ==> WF(r) && MEMOWF(e)
+//@   ensures ONLYMAPS(e)
+//@   ensures onlyfresh("TT_Template.Tree parse_Tree.Name#b parse_Tree.Name#o parse_Tree.Name#l")
+//@   ensures forallkey(w, haskeym(e.derived, w) ==> !isnil(e.derived[w]))
+//@   ensures forallref(p, haskeym(e.actionNodeEdits, p) || haskeym(e.templateNodeEdits, p) || haskeym(e.textNodeEdits, p) ==> !isnil(p))
+//@   ensures !isnil(e.output) && !isnil(e.derived) && !isnil(e.called)
+//@   closure 1 (e1 *escaper, c1 context) (acc bool)
+//@     requires !isnil(e1) && !isnil(e1.called)
+//@     ensures noerror: acc ==> c1.state != stateError
+//@     ensures fixpoint: acc && e1.called[ttname(t)] ==> out.state == c1.state && out.delim == c1.delim && seqeq(out.element.name, c1.element.name) && seqeq(out.attr.name, c1.attr.name) && out.err == c1.err && seqeq(out.scriptType, c1.scriptType) && seqeq(out.linkRel, c1.linkRel)
+//@     ensures plain: c1.state != stateError && !e1.called[ttname(t)] ==> acc
 
 //@ func (e *escaper) escapeText(c context, n *parse.TextNode) (r context)
 //@   serves C01 C08
